@@ -1,6 +1,8 @@
 package rules
 
 import (
+	"cvsslint/internal/spec"
+	"cvsslint/internal/facts"
 	"fmt"
 	"go/constant"
 	"go/token"
@@ -174,6 +176,10 @@ func (e *Env) getVersionShape(gv *types.Func) {
 	}
 	verT := gv.Type().(*types.Signature).Results().At(0).Type()
 	ps := parsersOf(gv.Pkg(), verT)
+	if len(ps) == 0 {
+		e.getVersionInline(gv, leaves, shape, part0, part1, verT)
+		return
+	}
 	nAcc := 0
 	for _, lf := range leaves {
 		if len(lf.Ret) != 2 {
@@ -209,6 +215,91 @@ func (e *Env) getVersionShape(gv *types.Func) {
 		}
 	}
 	c.Check(nAcc == 1, "version-prefix", who+" accepting paths", e.P.Pos(gv.Pos()), "exactly one", fmt.Sprintf("%d accepting paths", nAcc))
+}
+
+// getVersionInline: the label look-up is written out inside GetVersion (a switch or if-chain on the second part)
+// instead of being a func(string) Version of its own: every accepting path has the prefix shape, is selected by
+// comparisons of the second part with string constants only, and returns the constant that prints as the label it
+// was selected by (the unknown version when no label matched); every label of the specification has its path.
+func (e *Env) getVersionInline(gv *types.Func, leaves []*ir.Leaf, shape []*ir.Term, part0, part1 *ir.Term, verT types.Type) {
+	c := e.C
+	who := fname(gv)
+	shapeKey := map[string]bool{}
+	for _, g := range shape {
+		shapeKey[g.Key()] = true
+	}
+	seenLabel := map[string]bool{}
+	nDefault := 0
+	for _, lf := range leaves {
+		if len(lf.Ret) != 2 {
+			continue
+		}
+		cons := e.pathName(who, lf)
+		if !isNilConst(lf.Ret[1]) {
+			s, _, isWrap := sentinelOf(lf.Ret[1])
+			c.Check(isWrap && s == "ErrInvalidVector" && isZeroEnum(lf.Ret[0]), "version-prefix", cons, e.P.Pos(lf.Pos), "malformed prefix -> (unknown, ErrInvalidVector)", "a malformed prefix is not reported as (unknown version, errs.Wrap(ErrInvalidVector))")
+			continue
+		}
+		okLen := true
+		for _, g := range shape {
+			okLen = okLen && hasGuard(lf, g)
+		}
+		okTag, okRest := false, true
+		label := ""
+		for _, g := range lf.Guards {
+			if shapeKey[g.Key()] {
+				continue
+			}
+			if s, ok := nameEq(g, part0, "=="); ok && s == "CVSS" {
+				okTag = true
+				continue
+			}
+			if s, ok := nameEq(g, part1, "=="); ok {
+				if label != "" {
+					okRest = false
+				}
+				label = s
+				continue
+			}
+			if _, ok := nameEq(g, part1, "!="); ok {
+				continue
+			}
+			okRest = false
+		}
+		r := lf.Ret[0]
+		okVal := false
+		detail := ""
+		if r.Op == ir.OConst && r.C != nil {
+			v := facts.Value{Kind: facts.VConst, C: r.C, Type: verT}
+			if en := e.F.EnumOf(verT); en != nil {
+				if i, ok := constant.Int64Val(constant.ToInt(r.C)); ok {
+					if k := en.ConstByVal(i); k != nil {
+						v.Obj = k
+					}
+				}
+			}
+			switch {
+			case label == "":
+				nDefault++
+				okVal = isZeroEnum(r)
+				detail = "no label matched: " + r.Pretty()
+			default:
+				back, ok, _ := e.codeOf(verT, v)
+				known := false
+				for _, l := range spec.VersionLabels {
+					known = known || l == label
+				}
+				okVal = ok && back == label && known && !seenLabel[label]
+				seenLabel[label] = true
+				detail = fmt.Sprintf("label %q -> %s (prints as %q)", label, r.Pretty(), back)
+			}
+		}
+		c.Check(okLen && okTag && okRest && okVal, "version-prefix", cons, e.P.Pos(lf.Pos), `accepts only "CVSS:<label>"; `+detail, fmt.Sprintf("prefix acceptance is not exactly: two ':'-parts, first part == \"CVSS\", the second part compared with the supported labels only, each yielding the constant that prints as that label (len ok=%v, tag ok=%v, only label tests=%v, value ok=%v; %s)", okLen, okTag, okRest, okVal, detail))
+	}
+	for _, l := range spec.VersionLabels {
+		c.Check(seenLabel[l], "version-prefix", who+" label "+l, e.P.Pos(gv.Pos()), "has an accepting path", "no accepting path for the supported label "+l)
+	}
+	c.Check(nDefault == 1, "version-prefix", who+" default path", e.P.Pos(gv.Pos()), "exactly one path for every other label (unknown version)", fmt.Sprintf("%d paths return without a label having matched", nDefault))
 }
 
 func isZeroEnum(t *ir.Term) bool {
